@@ -857,6 +857,11 @@ impl<F: Read + Write + Seek> CompoundFile<F> {
 
     fn create_storage_all_with_path(&mut self, path: &Path) -> io::Result<()> {
         let names = internal::path::name_chain_from_path(path)?;
+        // Validate every name up front, so that a path with an invalid
+        // component is rejected before any of its parents gets created.
+        for name in names.iter() {
+            internal::path::validate_name(name)?;
+        }
         for length in 1..(names.len() + 1) {
             let prefix_path =
                 internal::path::path_from_name_chain(&names[..length]);
